@@ -3,6 +3,8 @@
 // with the same configuration and the same value at every lattice coordinate;
 // converting back reproduces the original; a copying conversion leaves the source
 // unchanged.
+#include <array>
+#include <cmath>
 #include "common.hpp"
 #include "cov.hpp"
 #include "ref.hpp"
@@ -77,6 +79,8 @@ T content(uint64_t seed, uint64_t idx)
         case 7: b = (sizeof(T) == 4 ? bits_t(0x7fa00000u) : bits_t(0x7ff4000000000000ull)) | bits_t(idx & 0xFFFF); break;   // signalling NaN + payload
         case 11: b = sizeof(T) == 4 ? bits_t(0xff800000u) : bits_t(0xfff0000000000000ull); break;   // -inf
         case 13: b = bits_t(1 + (idx & 0xFF)); break;                                              // subnormal
+        case 17: b = sizeof(T) == 4 ? bits_t(0x7f7fffffu) : bits_t(0x7fefffffffffffffull); break;   // largest finite
+        case 19: b = sizeof(T) == 4 ? bits_t(0xff7fffffu) : bits_t(0xffefffffffffffffull); break;   // lowest finite
         default: break;
     }
     T v;
@@ -405,6 +409,59 @@ struct Stack {
         }
         return std::nullopt;
     }
+    // "holds the same value at every lattice coordinate", asked of the field itself: under the affine map x -> x + t
+    // (identity plus an integer translation, exact in float) a lookup at cc - t reaches lattice coordinate cc. A
+    // nearest-neighbour stack returns the stored cell; a linear stack returns it as 1*p0 + 0*p1 + ..., which is exact
+    // whenever all 2^N corners exist and are finite in the layer's arithmetic type, the coordinate scalar (float here;
+    // a stored double is narrowed to it first) -- compared by value: -0.0 + 0.0 is +0.0.
+    template <Ip I, class BB>
+    static Verdict lookups_hold(const char * what, const covfie::field<BB> & f, const Case & c, const std::array<float, N> & t, uint64_t & looked)
+    {
+        typename covfie::field<BB>::view_t v(f);
+        Verdict bad;
+        for_box(c.ext, [&](const std::vector<uint64_t> & cc) {
+            if (bad) {
+                return;
+            }
+            bool ok = true;
+            if (I == Ip::lin) {
+                for (size_t k = 0; k < N; ++k) {
+                    ok = ok && cc[k] + 1 < c.ext[k];
+                }
+                for (uint64_t corner = 0; ok && corner < (uint64_t(1) << N); ++corner) {
+                    std::vector<uint64_t> q(cc);
+                    for (size_t k = 0; k < N; ++k) {
+                        q[k] += (corner >> k) & 1;
+                    }
+                    uint64_t rk = uint64_t(ref::row_major(q, c.ext));
+                    for (size_t j = 0; j < M; ++j) {
+                        ok = ok && std::isfinite(float(content<T>(c.seed, rk * M + j)));
+                    }
+                }
+            }
+            if (!ok) {
+                return;
+            }
+            typename covfie::field<BB>::coordinate_t x;
+            for (size_t k = 0; k < N; ++k) {
+                x[k] = float(cc[k]) - t[k];
+            }
+            auto r = v.at(x);
+            ++looked;
+            uint64_t rk = uint64_t(ref::row_major(cc, c.ext));
+            for (size_t j = 0; j < M; ++j) {
+                T want = content<T>(c.seed, rk * M + j);
+                T got = r[j];
+                // the linear layer blends in its coordinate scalar type (float here): a stored double passes through float
+                bool same = I == Ip::nn ? (bits_of(got) == bits_of(want) || (std::isnan(got) && std::isnan(want))) : got == T(float(want));
+                if (!same) {
+                    bad = std::string(what) + ": lookup at lattice coordinate " + cstr(cc) + " yields " + bits_hex(got) + " in component " + std::to_string(j) + ", the cell holds " + bits_hex(want);
+                    return;
+                }
+            }
+        });
+        return bad;
+    }
     static Verdict run(const Case & c)
     {
         if ((L1 == Lay::morton_bmi2 || L2 == Lay::morton_bmi2) && !have_bmi2()) {
@@ -464,6 +521,31 @@ struct Stack {
         }
         if (auto b = storage_holds<S1>("stack converted back", back.backend().get_backend().get_backend(), c)) {
             return b;
+        }
+        {
+            // the same conversion under a map that reaches the lattice: lookups through the converted stack and through the stack converted back
+            typename B1::configuration_t mt;
+            std::array<float, N> t;
+            for (size_t i = 0; i < N; ++i) {
+                for (size_t j = 0; j < N; ++j) {
+                    mt(i, j) = i == j ? 1.f : 0.f;
+                }
+                t[i] = float(mix(c.seed, 77 + i) % 3);
+                mt(i, N) = t[i];
+            }
+            covfie::field<B1> src2(pack(mt, std::monostate{}, typename S1::owning_data_t(st.backend())));
+            covfie::field<B2> dst2(src2);
+            uint64_t looked = 0;
+            if (auto b = lookups_hold<I2>("converted field", dst2, c, t, looked)) {
+                return b;
+            }
+            covfie::field<B1> back2(dst2);
+            if (auto b = lookups_hold<I1>("field converted back", back2, c, t, looked)) {
+                return b;
+            }
+            if (looked) {
+                label("whole-stack conversion with lookups at lattice coordinates through both stacks");
+            }
         }
         Hasher h;
         h.vec(c.ext).pod(c.seed).pod(c.move).vec(c.matrix);
